@@ -17,7 +17,7 @@ import (
 // under test (MarchingCubes*, MarchingSquares*, DualContouring,
 // SolidSurfaceEstimator); they are not themselves what is verified here.
 type csg struct {
-	kind string // box ball half vox or and sub
+	kind string // box ball half plane vox or and sub
 	p    []float64
 	a, b *csg
 	// vox
@@ -38,6 +38,8 @@ func (s *csg) contains(x, y, z float64) bool {
 			return c <= s.p[2]
 		}
 		return c >= s.p[2]
+	case "plane": // p = a, b, c, d (small integers / dyadic): a*x + b*y + c*z <= d, an oblique half-space
+		return s.p[0]*x+s.p[1]*y+s.p[2]*z <= s.p[3]
 	case "vox": // p = origin(3), delta ; nearest lattice point decides
 		idx := [3]int{}
 		for i, c := range [3]float64{x, y, z} {
@@ -66,7 +68,7 @@ func (s *csg) String() string {
 		return strings.Join(out, " ")
 	}
 	switch s.kind {
-	case "box", "ball", "half":
+	case "box", "ball", "half", "plane":
 		return s.kind + " " + rs()
 	case "vox":
 		return fmt.Sprintf("vox %s %d %d %d %s", rs(), s.n[0], s.n[1], s.n[2], bitStr(s.bits))
@@ -138,6 +140,9 @@ func randBits(c *hlib.Ctx, dims [3]int) []bool {
 func dy(c *hlib.Ctx, lo, hi float64, bits uint) float64 {
 	d := float64(int(1) << bits)
 	a, b := int(math.Ceil(lo*d)), int(math.Floor(hi*d))
+	if b < a { // no k/2^bits inside [lo, hi]: the nearest one above lo
+		b = a
+	}
 	return float64(a+c.Rng.Intn(b-a+1)) / d
 }
 
@@ -151,7 +156,9 @@ func randCSG(c *hlib.Ctx, span float64, depth int, allowBall bool, flat bool) *c
 			b: randCSG(c, span, depth-1, allowBall, flat)}
 	}
 	bits := uint(c.Rng.Intn(4))
-	switch k := c.Rng.Intn(5); {
+	switch k := c.Rng.Intn(6); {
+	case k == 5:
+		return oblique(c, span, flat)
 	case k == 0 && allowBall:
 		r := dy(c, 0.25, span/2, 2)
 		ctr := [3]float64{dy(c, r, span-r, 2), dy(c, r, span-r, 2), dy(c, r, span-r, 2)}
@@ -180,4 +187,44 @@ func randCSG(c *hlib.Ctx, span float64, depth int, allowBall bool, flat bool) *c
 		}
 		return &csg{kind: "box", p: p[:]}
 	}
+}
+
+// obliquePlane draws a half-space a*x+b*y+c*z <= d whose boundary passes through the dyadic point q
+// and whose normal has small integer components, at least two of them non-zero (not grid aligned).
+func obliquePlane(c *hlib.Ctx, q [3]float64, flat bool) *csg {
+	for {
+		a := [3]float64{float64(c.Rng.Intn(7) - 3), float64(c.Rng.Intn(7) - 3), float64(c.Rng.Intn(7) - 3)}
+		if flat {
+			a[2] = 0
+		}
+		nz := 0
+		for _, v := range a {
+			if v != 0 {
+				nz++
+			}
+		}
+		if nz < 2 {
+			continue
+		}
+		return &csg{kind: "plane", p: []float64{a[0], a[1], a[2], a[0]*q[0] + a[1]*q[1] + a[2]*q[2]}}
+	}
+}
+
+// oblique: a convex body cut out by 3..5 oblique half-spaces through points near the middle of
+// [0, span]^3 (wedges, pyramids, tips and creases that are not aligned with the grid).
+func oblique(c *hlib.Ctx, span float64, flat bool) *csg {
+	var t *csg
+	for n := 3 + c.Rng.Intn(3); n > 0; n-- {
+		q := [3]float64{dy(c, 0.25*span, 0.75*span, 3), dy(c, 0.25*span, 0.75*span, 3), dy(c, 0.25*span, 0.75*span, 3)}
+		if flat {
+			q[2] = 0
+		}
+		pl := obliquePlane(c, q, flat)
+		if t == nil {
+			t = pl
+		} else {
+			t = &csg{kind: "and", a: t, b: pl}
+		}
+	}
+	return t
 }
